@@ -481,6 +481,13 @@ def gen_grid(ctx: Ctx):
                 t += d
                 ctrs.append(mk_ctr(0, EXEC, t, q))
             yield {"op": "compute", "ctrs": ctrs}
+    # the plausibility bound itself: charge and time differences that give exactly 100 W (12 * dq / 512 / dt), one
+    # unit below and one above, far from and across the 2^32 wrap of the charge counter
+    for q0 in (0, M32 - 20000):
+        for dq, dt in ((51200, 12), (51199, 12), (51201, 12), (12800, 3), (12801, 3), (3200, Q(3, 4)), (409600, 96),
+                       (409599, 96)):
+            yield {"op": "compute", "ctrs": [mk_ctr(0, EXEC, 100, q0), mk_ctr(0, EXEC, 100 + dt, (q0 + dq) % M32),
+                                             mk_ctr(0, EXEC, 100 + 2 * dt, (q0 + 2 * dq + 7) % M32)]}
     # equal time stamps with the Prep rule (stage level only: extract never lets a Prep name through)
     for n in range(1, 4):
         for seq in itertools.product([(c, q, d) for c in (EXEC, PREP) for q in (1000, 3000) for d in (0, 1)], repeat=n):
